@@ -905,6 +905,33 @@ func (w *W) checkC17(t *gcore.Type, id string, c *dynamicpb.Message) {
 			w.nontr++
 		}
 	}
+	// ... and into a receiver that already holds a COMPLETE message (decode loops reuse receivers): the verdict is
+	// about the input, not about what the receiver held before
+	full := dynamicpb.NewMessage(t.RefDesc())
+	gcore.FillRequired(full)
+	for _, via := range []string{"Unmarshal", "csproto.Unmarshal"} {
+		y, perr := build(t, full)
+		if perr != "" {
+			break
+		}
+		in := append([]byte{}, b...)
+		p := guard(func() {
+			if via == "Unmarshal" {
+				err = y.(unmarshaler).Unmarshal(in)
+			} else {
+				err = csproto.Unmarshal(in, y)
+			}
+		})
+		w.evals++
+		switch {
+		case p != "":
+			report("C17/"+via+"-into-populated-receiver-panic", p, b)
+		case refErr == nil && err != nil:
+			report("C17/"+via+"-into-populated-receiver-spurious-error", err.Error(), b)
+		case refErr != nil && err == nil:
+			report("C17/"+via+"-into-populated-receiver-accepts-missing-required-field", "reference: "+refErr.Error(), b)
+		}
+	}
 }
 
 func initialized(m proto.Message) bool { return proto.CheckInitialized(m) == nil }
